@@ -1151,6 +1151,41 @@ def std_model(I, p, fr, t, args):
     if n == "last" and isinstance(d0, Iter) and d0.items is not None and (t.get("callee_trait") == "core::iter::traits::iterator::Iterator" or c.startswith("core::iter::")):
         rest = d0.items[d0.pos:]
         return Adt("core::option::Option", "Some", {"0": rest[-1]}) if rest else Adt("core::option::Option", "None", {})
+    if n == "flat_map" and isinstance(d0, Iter) and d0.items is not None and len(args) > 1 and isinstance(args[1], FnVal) and \
+            (t.get("callee_trait") == "core::iter::traits::iterator::Iterator" or c.startswith("core::iter::")):
+        flat = []
+        okf = True
+        for x in d0.items[d0.pos:]:
+            r_ = I.deref(I.call_value(args[1], [x], getattr(fr, "depth", 0)))
+            if isinstance(r_, Vec):
+                flat.extend(r_.items)
+            elif isinstance(r_, Iter) and r_.items is not None:
+                flat.extend(r_.items[r_.pos:])
+            elif isinstance(r_, Adt) and r_.path == "core::option::Option" and r_.variant in ("Some", "None"):
+                if r_.variant == "Some":
+                    flat.append(r_.fields["0"])
+            else:
+                okf = False
+        if okf:
+            return Iter(flat)
+    if n == "flatten" and isinstance(d0, Iter) and d0.items is not None and (t.get("callee_trait") == "core::iter::traits::iterator::Iterator" or c.startswith("core::iter::")):
+        flat = []
+        okf = True
+        for x in d0.items[d0.pos:]:
+            x = I.deref(x)
+            if isinstance(x, Vec):
+                flat.extend(x.items)
+            elif isinstance(x, Iter) and x.items is not None:
+                flat.extend(x.items[x.pos:])
+            elif isinstance(x, SetVal):
+                flat.extend(x.ordered(I.fx))
+            elif isinstance(x, Adt) and x.path == "core::option::Option" and x.variant in ("Some", "None"):
+                if x.variant == "Some":
+                    flat.append(x.fields["0"])
+            else:
+                okf = False
+        if okf:
+            return Iter(flat)
     if n in ("rotate_left", "rotate_right") and isinstance(d0, Vec) and len(args) > 1 and isinstance(I.deref(args[1]), int) and c.startswith("core::slice::"):
         k_ = I.deref(args[1])
         if k_ > len(d0.items):
@@ -1313,6 +1348,8 @@ def std_model(I, p, fr, t, args):
             return Iter(list(d0.items))
         if isinstance(d0, Iter):
             return d0
+        if isinstance(d0, Adt) and d0.path == "core::option::Option" and d0.variant in ("Some", "None"):
+            return Iter([d0.fields["0"]] if d0.variant == "Some" else [])
         if isinstance(d0, Adt) and d0.path in ("core::ops::range::Range", "core::ops::range::RangeInclusive") or (isinstance(d0, Adt) and set(d0.fields) >= {"start", "end"}):
             s, e = d0.fields.get("start"), d0.fields.get("end")
             if isinstance(s, int) and isinstance(e, int):
